@@ -182,7 +182,11 @@ def direct_doc(rng):
     body = []
     for _ in range(rng.randint(1, 5)):
         body.append(group(0) if rng.random() < 0.35 else shape())
-    text = ('<svg xmlns="http://www.w3.org/2000/svg" viewBox="%s %s %s %s"><defs/>%s</svg>' % (x, y, w, h, "".join(body)))
+    if x == 0 and y == 0 and rng.random() < 0.4:
+        # no viewBox attribute: the view box is (0, 0, width, height)
+        text = ('<svg xmlns="http://www.w3.org/2000/svg" width="%s" height="%s"><defs/>%s</svg>' % (w, h, "".join(body)))
+    else:
+        text = ('<svg xmlns="http://www.w3.org/2000/svg" viewBox="%s %s %s %s"><defs/>%s</svg>' % (x, y, w, h, "".join(body)))
     return text, kinds
 
 
@@ -339,6 +343,7 @@ def doc_bbox_judge(ctx, docs):
 
 
 def search(ctx, disagreements):
+    SVG, Rect, T = impl()
     found = rect_laws(ctx, 3000 if ctx.thorough() else 600)
     if not ctx.driver_ok:
         return found
@@ -361,6 +366,22 @@ def search(ctx, disagreements):
             nontrivial += 1
         if why:
             found.append({"kind": "clip-law", "input": t, "detail": why})
+    # the clip works on the document as it stands, pending in-place edits included: clipping an object right after an
+    # in-place edit gives what clipping its serialisation gives
+    for t in docs[-(120 if ctx.thorough() else 40):]:
+        def direct():
+            a = SVG.fromstring(t)
+            a.round_floats(0, inplace=True)
+            a.clip_to_viewbox(inplace=True)
+            return a.tostring()
+
+        def reparsed():
+            return SVG.fromstring(SVG.fromstring(t).round_floats(0).tostring()).clip_to_viewbox().tostring()
+        o1, r1 = common.outcome_of(direct)
+        o2, r2 = common.outcome_of(reparsed)
+        ctx.count("pending-edit-clip")
+        if (o1, r1) != (o2, r2):
+            found.append({"kind": "clip-history", "input": t, "detail": "round_floats(0, inplace) then clip_to_viewbox(inplace) gives %s, clipping the serialised rounded document gives %s" % ((o1, (r1 or "")[:300]), (o2, (r2 or "")[:300]))})
     found += bbox_judge(ctx, 600 if ctx.thorough() else 150)
     found += doc_bbox_judge(ctx, docs)
     ctx.stats["distinct_nontrivial"] = nontrivial + 2
@@ -379,4 +400,12 @@ def replay(ctx, payload):
         ctx.rng = random.Random(7)
         why, _ = judge_doc(ctx, payload["input"], npts=400)
         return {"fails": bool(why), "detail": why}
+    if payload.get("kind") == "clip-history":
+        SVG, Rect, T = impl()
+        t = payload["input"]
+        a = SVG.fromstring(t)
+        a.round_floats(0, inplace=True)
+        a.clip_to_viewbox(inplace=True)
+        b = SVG.fromstring(SVG.fromstring(t).round_floats(0).tostring()).clip_to_viewbox().tostring()
+        return {"fails": a.tostring() != b, "direct": a.tostring()[:600], "reparsed": b[:600]}
     return {"fails": bool(ctx.tie_breaks), "no_longer_checks": ctx.tie_breaks}
